@@ -14,6 +14,17 @@ CHECKS = {
         note="Trusted: TLC's evaluation of ExtTime.tla, the harness projection mins_from_midnight(), serde_json.",
         design_ref="8/C19",
     ),
+    "C20": dict(
+        category="model_checking",
+        technique="TLA+ spec SortedVec.tla (union transcribed branch by branch); TLC model checks the union machine and laws, generates exhaustive expected tables replayed on the real type, validates recorded histories",
+        text="MC_SortedVec explores the accumulator machine over all vectors (len<=3) of a 6-letter alphabet with one action per branch of "
+             "the Rust union (coverage required for all five) and checks union = set union, commutativity and the recursion bound for all "
+             "4096 subset pairs. Gen_SortedVec produces the expected From result of all 5461 vectors over {0..3} (len<=6), the union of "
+             "all subset pairs and all query answers; the harness replays them and all 3*10^7 vector pairs. Trace_SortedVec validates "
+             "seeded random longer histories step by step.",
+        note="Trusted: TLC's evaluation of SortedVec.tla; elements are integers (only Ord is used by the type).",
+        design_ref="8/C20",
+    ),
 }
 
 NOT_APPLICABLE = {}
